@@ -71,9 +71,24 @@ class ProjectSettings:
     def sim_start(self, sim_start):
         self._sim_start = sim_start
 
+    def _n_steps(self, sim_end) -> int:
+        """
+        Number of timesteps required to reach the requested end year
+
+        This is the smallest integer ``n`` such that ``sim_start + n*sim_dt`` is at or after ``sim_end``, where
+        a number of steps that is an integer up to floating point error (e.g. ``(2020.3-2000)/0.1``) is
+        treated as that integer rather than being rounded up or truncated.
+
+        """
+        n = (sim_end - self.sim_start) / self.sim_dt
+        if abs(n - np.round(n)) <= 1e-9 * max(1.0, abs(n)):
+            return int(np.round(n))
+        else:
+            return int(np.ceil(n))
+
     @sim_end.setter
     def sim_end(self, sim_end):
-        self._sim_end = self.sim_start + np.ceil((sim_end - self.sim_start) / self.sim_dt) * self.sim_dt
+        self._sim_end = self.sim_start + self._n_steps(sim_end) * self.sim_dt
         if sim_end != self._sim_end:
             logger.info(f"Changing sim end from {sim_end} to {self._sim_end} ({(self._sim_end - self._sim_start) / self._sim_dt:.0f} timesteps)")
 
@@ -95,7 +110,8 @@ class ProjectSettings:
 
         """
 
-        return np.linspace(self.sim_start, self.sim_end, int((self.sim_end - self.sim_start) / self.sim_dt) + 1)
+        n_steps = self._n_steps(self.sim_end)
+        return np.linspace(self.sim_start, self.sim_start + n_steps * self.sim_dt, n_steps + 1)
 
     def update_time_vector(self, start: float = None, end: float = None, dt: float = None) -> None:
         """
